@@ -1298,7 +1298,7 @@ class TensorDict(TensorDictBase):
                     names=names,
                     inplace=inplace,
                     checked=checked,
-                    out=out,
+                    out=out._get_str(key, default=None) if out is not None else None,
                     filter_empty=filter_empty,
                     executor=executor,
                     futures=futures,
